@@ -613,6 +613,8 @@ def broadcast_and_apply(  # noqa: C901
     regular_to_jagged=False,
 ):
     def checklength(inputs):
+        if len(inputs) == 0:
+            return
         length = len(inputs[0])
         for x in inputs[1:]:
             if len(x) != length:
